@@ -298,12 +298,20 @@ func runRendezvous(args []string) {
 	out := bufio.NewWriter(os.Stdout)
 	defer out.Flush()
 	var w *rzWorld
+	// a hang (a reply or a proposal that never comes within 6 s) ends the scenario it happened in: its remaining lines are not run (the
+	// world is no longer in a state the generator knows), and after three hangs the engine stops reading - a change that makes the
+	// rendezvous hang would otherwise cost 6 s per line for the whole suite
+	hangs, skipping := 0, false
 	for in.Scan() {
 		line := in.Text()
 		f := strings.Fields(line)
 		if len(f) < 2 || f[0] != "RZ" {
 			continue
 		}
+		if skipping && f[1] != "new" {
+			continue
+		}
+		skipping = false
 		var ev []string
 		if w != nil {
 			// whatever arrived since the previous line (nothing should)
@@ -412,6 +420,16 @@ func runRendezvous(args []string) {
 		}
 		fmt.Fprintf(out, "%s => %s\n", line, strings.Join(ev, " "))
 		out.Flush()
+		for _, e := range ev {
+			if e == "x:hang" {
+				hangs++
+				skipping = true
+				break
+			}
+		}
+		if hangs >= 3 {
+			break
+		}
 	}
 	if w != nil {
 		w.close()
